@@ -81,4 +81,84 @@ pub fn run(ctx: &mut Ctx) {
         Input::History { lines }
     });
     ctx.run_proptest("odd-numbering-after-history", &STD, n, odd, check);
+    address_sweep(ctx);
+}
+
+/// "every 2+3 byte address": all 65 536 talker pairs in front of VDM (a ',' or '*' in the address makes
+/// the line a different shape, which the recogniser tells us, and the check then asserts nothing about
+/// fields); every one-byte replacement and every upper/lower-case spelling of VDM / VDO behind each of
+/// the ten known talkers' first entry; in the thorough tier all 2^24 report types behind AI.
+fn address_sweep(ctx: &mut Ctx) {
+    let sub = "address-sweep";
+    let mk = |addr: [u8; 5], decode: bool| {
+        let mut l = b"!".to_vec();
+        l.extend_from_slice(&addr);
+        l.extend_from_slice(b",1,1,,A,15,0*00");
+        crate::refmodel::build::fix_checksum(&mut l);
+        Input::History { lines: vec![Line::new(l, decode)] }
+    };
+    for a in 0..=255u8 {
+        for b in 0..=255u8 {
+            if a == b'\n' || b == b'\n' {
+                continue;
+            }
+            ctx.sweep_case(sub, &STD, &mk([a, b, b'V', b'D', b'M'], b & 1 == 1), check);
+        }
+    }
+    for base in [*b"VDM", *b"VDO"] {
+        for pos in 0..3 {
+            for v in 0..=255u8 {
+                if v == b'\n' {
+                    continue;
+                }
+                let mut r = base;
+                r[pos] = v;
+                ctx.sweep_case(sub, &STD, &mk([b'A', b'I', r[0], r[1], r[2]], v & 1 == 0), check);
+            }
+        }
+        for mask in 0..8u8 {
+            let mut r = base;
+            for (i, c) in r.iter_mut().enumerate() {
+                if mask >> i & 1 == 1 {
+                    *c = c.to_ascii_lowercase();
+                }
+            }
+            for t in crate::gen::sentence::TALKERS.iter() {
+                for tmask in 0..4u8 {
+                    let mut tt = **t;
+                    for (i, c) in tt.iter_mut().enumerate() {
+                        if tmask >> i & 1 == 1 {
+                            *c = c.to_ascii_lowercase();
+                        }
+                    }
+                    ctx.sweep_case(sub, &STD, &mk([tt[0], tt[1], r[0], r[1], r[2]], true), check);
+                }
+            }
+        }
+    }
+    ctx.mark_exhaustive(sub, "all 2-byte talker ids before VDM; all one-byte replacements and case spellings of VDM / VDO");
+    if ctx.tier == crate::engine::Tier::Thorough {
+        // 2^24 report types, spread over the worker threads
+        let shards = 16u32;
+        let mut forks: Vec<Ctx> = (0..shards).map(|_| ctx.fork()).collect();
+        std::thread::scope(|sc| {
+            for (i, f) in forks.iter_mut().enumerate() {
+                sc.spawn(move || {
+                    let lo = (i as u32) * (1 << 24) / shards;
+                    let hi = (i as u32 + 1) * (1 << 24) / shards;
+                    for x in lo..hi {
+                        let r = [(x >> 16) as u8, (x >> 8) as u8, x as u8];
+                        if r.contains(&b'\n') {
+                            continue;
+                        }
+                        f.sweep_case("report-type-sweep", &STD, &mk([b'A', b'I', r[0], r[1], r[2]], false), check);
+                    }
+                });
+            }
+        });
+        for f in forks {
+            ctx.merge(f);
+        }
+        ctx.mark_exhaustive("report-type-sweep", "all 2^24 three-byte report types behind talker AI");
+    }
 }
